@@ -4,6 +4,9 @@ import json, os
 HERE = os.path.dirname(os.path.abspath(__file__))
 
 CHECKS = {
+ "C04": dict(cat="other", engine="mirsym", tech="bounded symbolic execution of rustc MIR (list model of dedupe::partition, header merge, clock/scan order) with z3 validity queries; native replays",
+             text="z3 decides on the symbolic execution of dedupe::partition (groups of 2-3 files, every sub-group distribution, stat results / time comparisons as free pure functions) that only regular files of the recorded length are ever classified and that, with a time limit, every classified file passed the modification check; was_modified, fetch_files_metadata, run_dedupe's default limit and the order 'clock read < scan' with an unshifted conversion are checked on their MIR.",
+             note="Trusted: MIR front end + summaries (lib/listsum.py list model), z3; FileSubGroup::group by contract; mtime-preserving replacement outside (as in the property).", ref="DESIGN.md §3 C04"),
  "C05": dict(cat="model_checking", tech="Kani/CBMC bounded model checking of the compiled FsCommand::execute over a model file system with symbolic call failures",
              text="Bounded model checking (Kani 0.68 / CBMC 6.11, CaDiCaL) of the real compiled code of execute/safe_remove/move_* for one command: all subsets of failing FS calls and all kill points between model-FS effects are covered by one SAT query per operation. Right level because the property quantifies over fault positions and crash points of a short straight-line protocol.",
              note="Trusted: Kani's translation, the model file system stubs (POSIX atomic rename/link/unlink, two-step copy), unwind 2 with unwinding assertions. RefLink path and thin wrappers checked separately where listed in evidence.", ref="DESIGN.md §3 C05"),
